@@ -252,3 +252,68 @@ def is_panic(n):
 
 def short(s, n=160):
     return s if len(s) <= n else s[: n - 3] + "..."
+
+
+# ---------------------------------------------------------------------------------------------
+# canonical pretty-printing: immutable simple `let`s are inlined, so introducing / removing /
+# renaming a temporary does not change the text that rules compare.
+
+def let_table(body):
+    """hid -> init node for `let x = <init>` with a plain, immutable, single binding pattern."""
+    t = {}
+    for s in walk(body):
+        if s.get("k") == "let" and s.get("init") is not None and s["pat"].get("k") == "bind" and "Mut" not in s["pat"].get("mode", ""):
+            t[s["pat"]["hid"]] = s["init"]
+    return t
+
+
+def _pure(n):
+    for x in walk(n):
+        if x.get("k") in ("assign", "assignop", "closure", "for", "loop", "match", "if", "break", "continue", "ret"):
+            return False
+    return True
+
+
+def cpretty(n, table, depth=0):
+    """pretty() after inlining the immutable lets of `table` (only pure initialisers) and dropping `&`/`*`."""
+    if n is None:
+        return ""
+    k = n.get("k")
+    if k == "local" and n["hid"] in table and depth < 6:
+        init = table[n["hid"]]
+        if _pure(init):
+            return cpretty(init, table, depth + 1)
+        return n["name"]
+    if k == "ref":
+        return cpretty(n["x"], table, depth)
+    if k == "un" and n["op"] == "Deref":
+        return cpretty(n["x"], table, depth)
+    if k == "blk" and not n["b"]["stmts"] and n["b"]["tail"] is not None:
+        return cpretty(n["b"]["tail"], table, depth)
+    c = lambda x: cpretty(x, table, depth)
+    if k == "mcall":
+        return "%s.%s(%s)" % (c(n["recv"]), n["name"], ", ".join(c(a) for a in n["args"]))
+    if k == "call":
+        return "%s(%s)" % (n["callee"] or c(n["f"]), ", ".join(c(a) for a in n["args"]))
+    if k == "bin":
+        return "(%s %s %s)" % (c(n["l"]), BINOPS.get(n["op"], n["op"]), c(n["r"]))
+    if k == "index":
+        return "%s[%s]" % (c(n["b"]), c(n["i"]))
+    if k == "field":
+        return "%s.%s" % (c(n["b"]), n["f"])
+    if k == "cast":
+        return "(%s as _)" % c(n["x"])
+    if k == "tup":
+        return "(" + ", ".join(c(a) for a in n["xs"]) + ")"
+    if k == "un":
+        return {"Not": "!", "Neg": "-"}.get(n["op"], n["op"]) + c(n["x"])
+    return pretty(n)
+
+
+def resolve(n, table, depth=0):
+    """follow immutable pure lets and strip refs/derefs/transparent blocks: the expression a local stands for"""
+    n = strip(n)
+    while n is not None and n.get("k") == "local" and n["hid"] in table and depth < 8 and _pure(table[n["hid"]]):
+        n = strip(table[n["hid"]])
+        depth += 1
+    return n
